@@ -15,6 +15,10 @@ type Data any
 
 // UnpackInterfaces implements the UnpackInterfaceMessages.UnpackInterfaces method
 func (cs ClientState) UnpackInterfaces(unpacker codectypes.AnyUnpacker) error {
+	if cs.ConsensusState == nil {
+		// nothing to unpack; ClientState.Validate rejects a nil consensus state
+		return nil
+	}
 	return cs.ConsensusState.UnpackInterfaces(unpacker)
 }
 
